@@ -197,12 +197,25 @@ def gen_case(rng, tier, index, programs_only=False):
             elif rng.random() < 0.5:
                 lines.append({"cfi": [".cfi_def_cfa_offset",
                                       [rng.randrange(8, 64)]]})
+                if rng.random() < 0.3 and nlab < len(planned):
+                    # a second directive at the same address, behind a label
+                    lines.append({"l": planned[nlab]})
+
+                    nlab += 1
+                    lines.append({"cfi": [".cfi_def_cfa_offset",
+                                          [rng.randrange(8, 64)]]})
             else:
                 lines.append({"cfi": [".cfi_endproc", []]})
                 cfi_open = False
         elif in_text and c["implicit_cfi"] and fmt == "elf":
             lines.append({"cfi": [".cfi_def_cfa_offset",
                                   [rng.randrange(8, 64)]]})
+            if rng.random() < 0.3 and nlab < len(planned):
+                lines.append({"l": planned[nlab]})
+
+                nlab += 1
+                lines.append({"cfi": [".cfi_def_cfa_offset",
+                                      [rng.randrange(8, 64)]]})
     if cfi_open:
         if not in_text:
             lines.append({"sec": ".text"})
@@ -748,4 +761,31 @@ def run_case(c):
             viol.append({"key": "asm:cfi-directives-differ",
                          "msg": f"got {sorted(got)} want {sorted(want)}\n"
                                 f"{text}"[:1200]})
+        else:
+            # ... and, where several stand at one address, in source order
+            gseq = {}
+            for off, dl in sorted(
+                    ((o, d) for o, d in table.items()
+                     if id(o.element_id) in block_sec),
+                    key=lambda x: (block_sec[id(x[0].element_id)],
+                                   x[0].element_id.offset + x[0].displacement,
+                                   x[0].element_id.offset)):
+                b = off.element_id
+                for d in dl:
+                    gseq.setdefault((block_sec[id(b)],
+                                     b.offset + off.displacement),
+                                    []).append((d[0], list(d[1])))
+            wseq = {}
+            for (cs, cp, d0, d1) in want:
+                wseq.setdefault((cs, cp), []).append((d0, d1))
+            for key_, w_ in wseq.items():
+                if len(w_) > 1:
+                    ctr["cfi_orders_compared"] = ctr.get(
+                        "cfi_orders_compared", 0) + 1
+                    if gseq.get(key_) != w_:
+                        viol.append({
+                            "key": "asm:cfi-directive-order-differs",
+                            "msg": f"at {key_}: got {gseq.get(key_)} want "
+                                   f"{w_}\n{text}"[:1200]})
+                        break
     return {"sig": sig, "violations": viol, "counters": ctr}
